@@ -43,30 +43,46 @@ func (f *trFn) Call(s *slip.Scope, args slip.List, depth int) slip.Object {
 	return nil
 }
 
+// otherPkg is a package that neither uses nor is used by the package the
+// flavors of a case live in (common-lisp-user); method steps with Pkg 1 are
+// evaluated while it is the current package.
+var otherPkg *slip.Package
+
 func initWorker() {
-	slip.Define(
-		func(args slip.List) slip.Object {
-			f := trFn{Function: slip.Function{Name: "c11-tr", Args: args}}
-			f.Self = &f
-			return &f
+	doc := &slip.FuncDoc{
+		Name: "c11-tr",
+		Args: []*slip.DocArg{
+			{Name: "tag", Type: "string"},
+			{Name: "&optional"},
+			{Name: "arg", Type: "object"},
 		},
-		&slip.FuncDoc{
-			Name: "c11-tr",
-			Args: []*slip.DocArg{
-				{Name: "tag", Type: "string"},
-				{Name: "&optional"},
-				{Name: "arg", Type: "object"},
-			},
-			Return: "nil",
-			Text:   "records a marker in the C11 monitor's trace",
-		}, &slip.UserPkg)
+		Return: "nil",
+		Text:   "records a marker in the C11 monitor's trace",
+	}
+	creator := func(args slip.List) slip.Object {
+		f := trFn{Function: slip.Function{Name: "c11-tr", Args: args}}
+		f.Self = &f
+		return &f
+	}
+	slip.Define(creator, doc, &slip.UserPkg)
+	if _, err := sl.Eval(slip.NewScope(), `(defpackage 'c11q (:use "cl" "generic" "flavors" "clos"))`); err == nil {
+		if otherPkg = slip.FindPackage("c11q"); otherPkg != nil {
+			d2 := *doc
+			slip.Define(creator, &d2, otherPkg)
+		}
+	}
+	sl.Reset()
 }
 
 // ---- rendering the forms -------------------------------------------------
 
 func fname(pre string, f int) string { return pre + "f" + strconv.Itoa(f) }
 
-func flavorSrc(pre string, k int, f *Flavor) string {
+func flavorSrc(pre string, k int, f *Flavor) string { return flavorSrcX(pre, k, f, "", "") }
+
+// flavorSrcX: the defflavor form with one more component (by name) and more
+// option text, for the forms that have to fail.
+func flavorSrcX(pre string, k int, f *Flavor, extraComp, extraOpts string) string {
 	var b strings.Builder
 	b.WriteString("(defflavor " + fname(pre, k) + " (")
 	for i, v := range f.Vars {
@@ -87,6 +103,12 @@ func flavorSrc(pre string, k int, f *Flavor) string {
 			b.WriteByte(' ')
 		}
 		b.WriteString(fname(pre, c))
+	}
+	if extraComp != "" {
+		if 0 < len(f.Comps) {
+			b.WriteByte(' ')
+		}
+		b.WriteString(extraComp)
 	}
 	b.WriteString(")")
 	opt := func(name string, all bool, list []string) {
@@ -133,6 +155,7 @@ func flavorSrc(pre string, k int, f *Flavor) string {
 		}
 		b.WriteString(")")
 	}
+	b.WriteString(extraOpts)
 	b.WriteString(")")
 	return b.String()
 }
@@ -156,20 +179,32 @@ func methodSrc(pre string, m Method, ver int) string {
 		tag := map[string]string{"whopper": "w", "primary": "p", "before": "b", "after": "a"}[m.Kind]
 		return fmt.Sprintf(`%s %s (c11-tr "%s%s"%s) (error "c11 %s%s") nil)`, head, ll, tag, id, a, tag, id)
 	}
+	relay := ""
+	if m.Relay && 0 < arity(m.Msg) {
+		// on the outermost level only: the same message to self once more
+		relay = fmt.Sprintf(` (if (numberp a) (progn (c11-tr "<%d") (send self :%s (list 'r a)) (c11-tr ">%d")))`, m.F, m.Msg, m.F)
+	}
 	switch m.Kind {
 	case "whopper":
 		if m.Stop {
-			return fmt.Sprintf(`(defwhopper (%s :%s) %s (c11-tr "w%s"%s) (c11-tr "x%s") (list 's %d))`,
-				fname(pre, m.F), m.Msg, ll, id, a, id, m.F)
+			return fmt.Sprintf(`(defwhopper (%s :%s) %s (c11-tr "w%s"%s)%s (c11-tr "x%s") (list 's %d))`,
+				fname(pre, m.F), m.Msg, ll, id, a, relay, id, m.F)
 		}
-		return fmt.Sprintf(`(defwhopper (%s :%s) %s (c11-tr "w%s"%s) (let ((r (continue-whopper%s))) (c11-tr "x%s") (list 'w %d r)))`,
-			fname(pre, m.F), m.Msg, ll, id, a, ca, id, m.F)
+		if m.Twice {
+			// the first pass through what the whopper wraps is for nothing
+			relay += fmt.Sprintf(" (continue-whopper%s)", ca)
+		}
+		return fmt.Sprintf(`(defwhopper (%s :%s) %s (c11-tr "w%s"%s)%s (let ((r (continue-whopper%s))) (c11-tr "x%s") (list 'w %d r)))`,
+			fname(pre, m.F), m.Msg, ll, id, a, relay, ca, id, m.F)
 	case "primary":
 		return fmt.Sprintf(`(defmethod (%s :%s) %s (c11-tr "p%s"%s) (list %d %d%s))`,
 			fname(pre, m.F), m.Msg, ll, id, a, m.F, ver, a)
 	}
-	return fmt.Sprintf(`(defmethod (%s :%s :%s) %s (c11-tr "%s%s"%s))`,
-		fname(pre, m.F), m.Kind, m.Msg, ll, m.Kind[:1], id, a)
+	if m.Kind != "before" {
+		relay = ""
+	}
+	return fmt.Sprintf(`(defmethod (%s :%s :%s) %s (c11-tr "%s%s"%s)%s)`,
+		fname(pre, m.F), m.Kind, m.Msg, ll, m.Kind[:1], id, a, relay)
 }
 
 // ---- the monitor ---------------------------------------------------------
@@ -205,6 +240,10 @@ type monitor struct {
 	nSend  map[tm]int
 	nMake  map[int]int
 	early  map[int]*live
+	// abandoned: a form that had to fail was accepted; nothing more is judged
+	abandoned bool
+	// decoys: instances of the decoy flavors, made before they were removed
+	decoys []*flavors.Instance
 }
 
 func (k *monitor) record(key, label, value string) {
@@ -229,6 +268,17 @@ func (k *monitor) fail(sig, format string, a ...any) {
 
 func (k *monitor) eval(src string) (slip.Object, *sl.Err) {
 	return sl.Eval(k.scope, src)
+}
+
+// evalIn evaluates src while the other package is the current one (pkg 1).
+func (k *monitor) evalIn(pkg int, src string) (slip.Object, *sl.Err) {
+	if pkg == 0 || otherPkg == nil {
+		return k.eval(src)
+	}
+	was := slip.CurrentPackage
+	slip.CurrentPackage = otherPkg
+	defer func() { slip.CurrentPackage = was }()
+	return k.eval(src)
 }
 
 func msgClass(msg string) string {
@@ -287,8 +337,35 @@ func sameSet(a, b []string) bool {
 	return eqs(a, b)
 }
 
+// splitNested takes the nested sends of relaying daemons (from a "<F" marker
+// to the matching ">F", or to the end when the nested send failed) out of a
+// trace.
+func splitNested(got []string) (flat []string, segs [][]string) {
+	for i := 0; i < len(got); i++ {
+		if got[i] == "" || got[i][0] != '<' {
+			flat = append(flat, got[i])
+			continue
+		}
+		var seg []string
+		for i++; i < len(got) && (got[i] == "" || got[i][0] != '>'); i++ {
+			seg = append(seg, got[i])
+		}
+		segs = append(segs, seg)
+	}
+	return
+}
+
 // judgeTrace compares the daemons that ran with the model, kind by kind.
-func judgeTrace(e *expect, got []string) (class, daemon string) {
+func judgeTrace(e *expect, all []string) (class, daemon string) {
+	got, segs := splitNested(all)
+	if len(segs) != len(e.nested) {
+		return "nested-count", "relay"
+	}
+	for i, seg := range segs {
+		if c, d := judgeTrace(e.nested[i], seg); c != "" {
+			return "nested-" + c, d
+		}
+	}
 	var gw, gb, gp, ga, gx, other []string
 	for _, m := range got {
 		switch m[0] {
@@ -334,10 +411,7 @@ func judgeTrace(e *expect, got []string) (class, daemon string) {
 	if !cmp(gb, e.before, "before") {
 		return
 	}
-	var wp []string
-	if e.primary != "" {
-		wp = []string{e.primary}
-	}
+	wp := e.prims
 	if !eqs(gp, wp) {
 		daemon = "primary"
 		class = "wrong"
@@ -352,10 +426,32 @@ func judgeTrace(e *expect, got []string) (class, daemon string) {
 	if !cmp(gx, e.whopOut, wname+"-exit") {
 		return
 	}
-	if 0 < len(other) || !eqs(got, e.trace()) {
+	if 0 < len(other) || !eqs(all, e.trace()) {
 		return "phase", "all"
 	}
 	return "", ""
+}
+
+func msgKind(msg string) string {
+	switch {
+	case msg == "init":
+		return "init"
+	case strings.HasPrefix(msg, "set-"):
+		return "setter"
+	case arity(msg) == 0:
+		return "getter"
+	}
+	return "user"
+}
+
+// sig names a failed observation of the (flavor, message) table. A table
+// that got a component's first daemon from a form evaluated in the other
+// package has one signature of its own (a listed finding).
+func (k *monitor) sig(t int, msg, class, daemon, path string) string {
+	if k.w.foreign[tm{t, msg}] {
+		return "pkg=other fail=late-method-lost"
+	}
+	return sigFor(k.w.late[tm{t, msg}], class, daemon, msgClass(msg), path)
 }
 
 // judgeSend compares one observed send (trace, result, error) with the model.
@@ -366,11 +462,21 @@ func (k *monitor) judgeSend(what string, t int, msg, path string, e *expect, got
 	x.Cover("path:" + path)
 	x.Cover("late:" + lateNames[late])
 	x.Cover("msg:" + mc)
+	x.Cover("msgkind:" + msgKind(msg))
+	if k.w.foreign[tm{t, msg}] {
+		x.Cover("send:table-with-late-daemon-from-other-package")
+	}
 	if !e.handled {
 		x.Cover("send:unhandled")
 	} else {
 		x.Cover(fmt.Sprintf("send:flavors-contributing=%d", e.nFlavors))
 		x.Cover(fmt.Sprintf("send:whoppers=%d", e.nWhoppers))
+		x.Cover(fmt.Sprintf("send:befores=%d", len(e.before)))
+		x.Cover(fmt.Sprintf("send:afters=%d", len(e.after)))
+		x.Cover(fmt.Sprintf("send:primary=%s candidates=%d", e.primKind, e.primCand))
+		if 0 < len(e.nested) {
+			x.Cover(fmt.Sprintf("send:nested-sends=%d", len(e.nested)))
+		}
 		if 2 <= e.nFlavors {
 			k.rich = true
 			x.Cover("send:combined late=" + lateNames[late] + " path=" + path)
@@ -381,43 +487,44 @@ func (k *monitor) judgeSend(what string, t int, msg, path string, e *expect, got
 	if k.sample == nil && 2 <= e.nFlavors {
 		k.sample = map[string]any{"flavor": t, "msg": msg, "path": path, "trace": got, "late": lateNames[late]}
 	}
+	sg := func(class, daemon string) string { return k.sig(t, msg, class, daemon, path) }
 	desc := fmt.Sprintf("%s: (%s f%d :%s) late=%s", what, path, t, msg, lateNames[late])
 	if e.errs {
 		switch {
 		case err == nil:
-			k.fail(sigFor(late, "error-lost", "-", mc, path), "%s returned %s although a daemon signals an error; model trace %v, ran %v", desc, sl.Show(res), e.trace(), got)
+			k.fail(sg("error-lost", "-"), "%s returned %s although a daemon signals an error; model trace %v, ran %v", desc, sl.Show(res), e.trace(), got)
 			return false
 		case err.Internal:
-			k.fail(sigFor(late, "internal-fault", "-", mc, path), "%s => %s; model trace %v", desc, err, e.trace())
+			k.fail(sg("internal-fault", "-"), "%s => %s; model trace %v", desc, err, e.trace())
 			return false
 		}
 		x.Cover("send:daemon-signals-error")
 	} else if err != nil {
 		if err.Internal {
 			if e.handled {
-				k.fail(sigFor(late, "internal-fault", "-", mc, path), "%s => %s; model trace %v", desc, err, e.trace())
+				k.fail(sg("internal-fault", "-"), "%s => %s; model trace %v", desc, err, e.trace())
 				return false
 			}
 			k.fail("fail=internal-fault in=unhandled-message", "%s => %s", desc, err)
 			return false
 		} else if e.handled {
-			k.fail(sigFor(late, "error", "-", mc, path), "%s => %s; model trace %v", desc, err, e.trace())
+			k.fail(sg("error", "-"), "%s => %s; model trace %v", desc, err, e.trace())
 			return false
 		}
 		x.Cover("send:unhandled-error")
 	}
-	if !e.handled && err == nil {
+	if !e.handled && err == nil && path != "send-if-handles" {
 		k.fail("fail=no-error in=unhandled-message", "%s returned %s without signalling an error", desc, sl.Show(res))
 		return false
 	}
 	class, daemon := judgeTrace(e, got)
 	if class != "" {
-		k.fail(sigFor(late, class, daemon, mc, path), "%s ran %v, model says %v", desc, got, e.trace())
+		k.fail(sg(class, daemon), "%s ran %v, model says %v", desc, got, e.trace())
 		return false
 	}
 	if checkResult && e.hasPrim && err == nil {
 		if g, w := sl.Show(res), show(e.result); g != w {
-			k.fail(sigFor(late, "result", "-", mc, path), "%s returned %s, model says %s (trace %v)", desc, g, w, got)
+			k.fail(sg("result", "-"), "%s returned %s, model says %s (trace %v)", desc, g, w, got)
 			return false
 		}
 		x.Cover("result-checked")
@@ -476,7 +583,11 @@ func (k *monitor) checkSlots(what string, lv *live) {
 			return
 		}
 		if g, w := sl.Show(v), show(lv.m.vars[n]); g != w {
-			k.fail("fail=var-value at="+strings.SplitN(what, " ", 2)[0], "%s: variable %s of an instance of f%d is %s, model says %s", what, n, lv.m.t, g, w)
+			sig := "fail=var-value at=" + strings.SplitN(what, " ", 2)[0]
+			if k.w.foreignFlavor(lv.m.t) {
+				sig = "pkg=other fail=late-method-lost then=var-value"
+			}
+			k.fail(sig, "%s: variable %s of an instance of f%d is %s, model says %s", what, n, lv.m.t, g, w)
 			return
 		}
 		k.x.Cover("slot-checked")
@@ -524,6 +635,19 @@ func (k *monitor) makeInst(what string, t int, kv []kwarg) (*live, *sl.Err) {
 	}
 	if k.quiet {
 		return lv, nil
+	}
+	if what == "final" && len(kv) == 0 {
+		for _, n := range lv.m.varNames() {
+			at, givers := k.w.defaultSource(t, n)
+			switch {
+			case at < 0:
+				k.x.Cover("default:no-flavor-gives-one")
+			case at == 0:
+				k.x.Cover(fmt.Sprintf("default:own givers=%d", givers))
+			default:
+				k.x.Cover(fmt.Sprintf("default:inherited from-precedence-index=%d givers=%d", at, givers))
+			}
+		}
 	}
 	if k.judgeSend(what+" make-instance", t, "init", "send", e, got, nil, nil, false) {
 		k.checkSlots(what+" after make-instance", lv)
@@ -644,18 +768,26 @@ func (k *monitor) send(what string, lv *live, msg, path string) {
 		res slip.Object
 		err *sl.Err
 	)
-	if path == "send" {
+	switch path {
+	case "send", "send-if-handles", "setf":
 		src := "(send " + lv.name + " :" + msg
+		if path == "send-if-handles" {
+			src = "(send " + lv.name + " :send-if-handles :" + msg
+		}
 		if 0 < arity(msg) {
 			src += " 7"
 		}
 		src += ")"
-		if e.errs || unhandled {
+		if path == "setf" {
+			// (setf (send i :v) x) is documented to send :set-v
+			src = "(setf (send " + lv.name + " :" + strings.TrimPrefix(msg, "set-") + ") 7)"
+		}
+		if e.errs || (unhandled && path != "send-if-handles") {
 			res, err = k.evalGuarded(src)
 		} else {
 			res, err = k.eval(src)
 		}
-	} else {
+	default:
 		bindings := slip.NewScope()
 		if 0 < arity(msg) {
 			bindings.Let(slip.Symbol("a"), slip.Fixnum(7))
@@ -668,7 +800,7 @@ func (k *monitor) send(what string, lv *live, msg, path string) {
 	if e.errs {
 		lv.after = "daemon-signals-error"
 	}
-	if unhandled {
+	if unhandled && path != "send-if-handles" {
 		lv.after = "unhandled-message"
 	}
 	if what == "final" {
@@ -687,9 +819,101 @@ func (k *monitor) send(what string, lv *live, msg, path string) {
 	if k.quiet {
 		return
 	}
-	if !k.judgeSend(what, t, msg, path, e, got, res, err, true) {
+	if unhandled && path == "send-if-handles" {
+		// "sends to the instance if the instance has the method": nothing happens
+		switch {
+		case err != nil:
+			k.fail(k.sig(t, msg, "error-for-unhandled", "-", path), "(send f%d-instance :send-if-handles :%s ..) => %s; the flavor does not handle the message", t, msg, err)
+		case 0 < len(got) || res != nil:
+			k.fail(k.sig(t, msg, "ran-for-unhandled", "-", path), "(send f%d-instance :send-if-handles :%s ..) ran %v and returned %s; the flavor does not handle the message", t, msg, got, sl.Show(res))
+		default:
+			k.x.Cover("route:send-if-handles unhandled, nothing ran")
+		}
+		return
+	}
+	if path != "send" && path != "bound" {
+		k.x.Cover("route:" + path + " " + msgKind(msg))
+	}
+	if !k.judgeSend(what, t, msg, path, e, got, res, err, path != "setf") {
 		k.resync(lv)
 	}
+}
+
+// handledP asks the instance itself whether it handles msg.
+func (k *monitor) handledP(lv *live, msg string, handled bool) {
+	if lv.tainted {
+		return
+	}
+	res, err := k.eval("(send " + lv.name + " :operation-handled-p :" + msg + ")")
+	k.record(fmt.Sprintf("handled-p|%d|%s", lv.m.t, msg), "operation-handled-p", sl.Show(res))
+	if k.quiet {
+		return
+	}
+	switch {
+	case err != nil:
+		k.fail(k.sig(lv.m.t, msg, "error", "-", "operation-handled-p"), "(send f%d-instance :operation-handled-p :%s) => %s", lv.m.t, msg, err)
+	case (res != nil) != handled:
+		k.fail(k.sig(lv.m.t, msg, "wrong-answer", "-", "operation-handled-p"), "(send f%d-instance :operation-handled-p :%s) => %s, the model says handled = %v",
+			lv.m.t, msg, sl.Show(res), handled)
+	default:
+		k.x.Cover(fmt.Sprintf("route:operation-handled-p handled=%v", handled))
+	}
+}
+
+// routes reaches the method tables of one instance through the other ways
+// slip offers: :operation-handled-p, :send-if-handles, (setf (send ..)) and
+// :which-operations.
+func (k *monitor) routes(what string, lv *live) {
+	if lv.tainted {
+		return
+	}
+	universe := append(messageUniverse(k.c), "c11-no-such-message")
+	handled := map[string]bool{}
+	for _, msg := range universe {
+		probe := *lv.m
+		probe.vars = map[string]val{}
+		for n, v := range lv.m.vars {
+			probe.vars[n] = v
+		}
+		var arg val
+		if 0 < arity(msg) {
+			arg = 7
+		}
+		handled[msg] = k.w.send(&probe, msg, arg).handled
+		k.handledP(lv, msg, handled[msg])
+		if msg == "init" || msg == "c11-no-such-message" {
+			continue
+		}
+		k.send(what, lv, msg, "send-if-handles")
+		if strings.HasPrefix(msg, "set-") {
+			k.send(what, lv, msg, "setf")
+		}
+	}
+	res, err := k.eval("(send " + lv.name + " :which-operations)")
+	if err != nil {
+		k.fail("fail=error path=which-operations", "(send f%d-instance :which-operations) => %s", lv.m.t, err)
+		return
+	}
+	listed := map[string]bool{}
+	if l, ok := res.(slip.List); ok {
+		for _, o := range l {
+			listed[strings.TrimPrefix(sl.Show(o), ":")] = true
+		}
+	}
+	var rec []string
+	for _, msg := range universe {
+		rec = append(rec, fmt.Sprintf("%s=%v", msg, listed[msg]))
+		if k.quiet {
+			continue
+		}
+		if listed[msg] != handled[msg] {
+			k.fail(k.sig(lv.m.t, msg, "wrong-answer", "-", "which-operations"), "(send f%d-instance :which-operations) lists :%s = %v, the model says handled = %v (the list: %s)",
+				lv.m.t, msg, listed[msg], handled[msg], sl.Show(res))
+			return
+		}
+		k.x.Cover(fmt.Sprintf("route:which-operations listed=%v", listed[msg]))
+	}
+	k.record(fmt.Sprintf("which-operations|%d", lv.m.t), "which-operations", strings.Join(rec, " "))
 }
 
 func (k *monitor) checkFlavor(t int) {
@@ -719,6 +943,9 @@ func (k *monitor) checkFlavor(t int) {
 			k.fail("fail=precedence", "(class-precedence f%d) => %v, model says %v", t, got, want)
 		} else if !k.quiet {
 			k.x.Cover(fmt.Sprintf("precedence-checked len=%d", len(p)))
+			if k.w.shared[t] {
+				k.x.Cover("precedence-checked a-flavor-reached-twice")
+			}
 		}
 	}
 	// describe-flavor
@@ -775,6 +1002,14 @@ func (k *monitor) checkFlavor(t int) {
 	}
 	if fmt.Sprint(keys) != fmt.Sprint(wantKeys) {
 		k.fail("fail=describe what=keyword-defaults", "describe-flavor f%d lists keywords %v, model says %v", t, keys, wantKeys)
+	}
+	for n := range k.w.keys(t) {
+		at, givers := k.w.keySource(t, n)
+		if at == 0 {
+			k.x.Cover(fmt.Sprintf("keyword-default:own givers=%d", givers))
+		} else {
+			k.x.Cover(fmt.Sprintf("keyword-default:inherited from-precedence-index=%d givers=%d", at, givers))
+		}
 	}
 	k.x.Cover("describe-checked")
 }
@@ -843,8 +1078,12 @@ func (k *monitor) runSteps(steps []Step) bool {
 				cover("form:redefinition")
 			}
 			src := methodSrc(k.pre, m, ver)
-			k.forms = append(k.forms, strings.ReplaceAll(src, k.pre, ""))
-			if _, err := k.eval(src); err != nil {
+			label := strings.ReplaceAll(src, k.pre, "")
+			if st.Pkg != 0 {
+				label = "[in package c11q:] " + label
+			}
+			k.forms = append(k.forms, label)
+			if _, err := k.evalIn(st.Pkg, src); err != nil {
 				form := "defmethod"
 				if m.Kind == "whopper" {
 					form = "defwhopper"
@@ -852,11 +1091,62 @@ func (k *monitor) runSteps(steps []Step) bool {
 				k.fail("fail=define-error form="+form, "step %d %s => %s", si, src, err)
 				return false
 			}
-			k.w.defMethod(m)
+			k.w.defMethod(m, st.Pkg)
 			cover("form:" + m.Kind)
 			if m.Stop {
 				cover("form:whopper-without-continue")
 			}
+			if m.Relay && 0 < arity(m.Msg) && (m.Kind == "whopper" || m.Kind == "before") {
+				cover("form:relaying-" + m.Kind)
+			}
+			if m.Twice && m.Kind == "whopper" && !m.Stop && !m.Err {
+				cover("form:whopper-continuing-twice")
+			}
+			if st.Pkg != 0 {
+				cover("form:method-defined-in-other-package")
+			}
+		case "method-err", "flavor-dup", "flavor-bad":
+			// a form that has to fail; the model does not change
+			if st.F < 0 || len(c.Flavors) <= st.F {
+				return false
+			}
+			var src string
+			switch st.Op {
+			case "method-err":
+				ll := "()"
+				if 0 < arity(st.Msg) {
+					ll = "(a)"
+				}
+				src = fmt.Sprintf(`(defmethod (%s :c11-bogus :%s) %s (c11-tr "z%d"))`, fname(k.pre, st.F), st.Msg, ll, st.F)
+			case "flavor-dup":
+				src = fmt.Sprintf(`(defflavor %s ((v0 990) (v1 991) (v2 992) (u0 993)) () :gettable-instance-variables :settable-instance-variables :initable-instance-variables)`,
+					fname(k.pre, st.F))
+			default:
+				fl := &c.Flavors[st.F]
+				switch st.Bad {
+				case "unknown-component":
+					src = flavorSrcX(k.pre, st.F, fl, "c11-nowhere", "")
+				case "unknown-included":
+					src = flavorSrcX(k.pre, st.F, fl, "", " :settable-instance-variables (:included-flavors c11-nowhere)")
+				case "required-method":
+					src = flavorSrcX(k.pre, st.F, fl, "", " :settable-instance-variables (:required-methods :c11-zork)")
+				default:
+					src = flavorSrcX(k.pre, st.F, fl, "", " :settable-instance-variables :c11-bogus-option")
+				}
+			}
+			k.forms = append(k.forms, "[fails:] "+strings.ReplaceAll(src, k.pre, ""))
+			_, err := k.eval(src)
+			switch {
+			case err == nil:
+				// not what the statement is about: the rest of the case has no model
+				cover("failing-form:accepted op=" + st.Op)
+				k.abandoned = true
+				return false
+			case err.Internal:
+				k.fail("fail=internal-fault form="+st.Op, "step %d %s => %s", si, src, err)
+				return false
+			}
+			cover("failing-form:signalled op=" + st.Op + " " + st.Bad)
 		case "inst":
 			if k.quiet {
 				continue
@@ -880,6 +1170,75 @@ func (k *monitor) runSteps(steps []Step) bool {
 			}
 		}
 	}
+	return true
+}
+
+// decoy defines every flavor name of the case with another definition
+// (components reversed, other variables and defaults, daemons of every kind
+// with z markers), makes an instance of each and removes the flavors again
+// with undefflavor: the history that follows defines the names anew and
+// nothing of the first definitions may show.
+func (k *monitor) decoy() bool {
+	c := k.c
+	run := func(src string) bool {
+		if _, err := k.eval(src); err != nil {
+			k.fail("fail=define-error form=decoy-prelude", "%s => %s", src, err)
+			return false
+		}
+		return true
+	}
+	for f := range c.Flavors {
+		name := fname(k.pre, f)
+		var comps []string
+		for i := len(c.Flavors[f].Comps) - 1; 0 <= i; i-- {
+			if cp := c.Flavors[f].Comps[i]; cp < f {
+				comps = append(comps, fname(k.pre, cp))
+			}
+		}
+		forms := []string{
+			fmt.Sprintf(`(defflavor %s ((v0 %d) (v1 %d) (u0 %d)) (%s) :gettable-instance-variables :settable-instance-variables :initable-instance-variables (:default-init-plist (:k0 %d)))`,
+				name, 9000+10*f, 9001+10*f, 9002+10*f, strings.Join(comps, " "), 9003+10*f),
+			fmt.Sprintf(`(defmethod (%s :before :m) (a) (c11-tr "zb%d"))`, name, f),
+			fmt.Sprintf(`(defmethod (%s :after :m) (a) (c11-tr "za%d"))`, name, f),
+			fmt.Sprintf(`(defmethod (%s :m) (a) (c11-tr "zp%d") 'z)`, name, f),
+			fmt.Sprintf(`(defwhopper (%s :n) (a) (c11-tr "zw%d") (continue-whopper a))`, name, f),
+			fmt.Sprintf(`(defwhopper (%s :m) (a) (c11-tr "zw%d") (continue-whopper a))`, name, f),
+			fmt.Sprintf(`(defmethod (%s :after :init) (pl) (c11-tr "zi%d"))`, name, f),
+			fmt.Sprintf(`(defmethod (%s :before :v0) () (c11-tr "zg%d"))`, name, f),
+			fmt.Sprintf(`(defmethod (%s :after :set-v1) (a) (c11-tr "zs%d"))`, name, f),
+		}
+		for _, src := range forms {
+			if !run(src) {
+				return false
+			}
+		}
+		obj, err := k.eval("(make-instance '" + name + ")")
+		if err != nil {
+			k.fail("fail=define-error form=decoy-prelude", "make-instance of the first definition of f%d => %s", f, err)
+			return false
+		}
+		if fi, ok := obj.(*flavors.Instance); ok {
+			k.decoys = append(k.decoys, fi)
+		}
+	}
+	k.forms = append(k.forms, fmt.Sprintf("[first definitions of f0..f%d with z daemons, one instance each]", len(c.Flavors)-1))
+	for f := range c.Flavors {
+		if flavors.Find(fname(k.pre, f)) == nil {
+			continue // went with a flavor it inherited from
+		}
+		if !run("(undefflavor '" + fname(k.pre, f) + ")") {
+			return false
+		}
+		k.forms = append(k.forms, fmt.Sprintf("(undefflavor 'f%d)", f))
+	}
+	for f := range c.Flavors {
+		if flavors.Find(fname(k.pre, f)) != nil {
+			k.fail("fail=define-error form=decoy-prelude", "f%d is still a flavor after its undefflavor", f)
+			return false
+		}
+	}
+	trace = trace[:0]
+	k.x.Cover("form:redefined-after-undefflavor")
 	return true
 }
 
@@ -925,6 +1284,8 @@ func (k *monitor) finalSweep() {
 			}
 		}
 		k.checkSlots("final after the sends", fresh)
+		k.routes("final", fresh)
+		k.checkSlots("final after the other routes", fresh)
 		if bound != nil {
 			k.checkSlots("final after the bound sends", bound)
 		}
@@ -1036,10 +1397,55 @@ func exec(x *fw.Ctx, c Case) {
 	} else {
 		x.Cover("case:seeded")
 	}
+	foreignCase := false
+	for _, st := range c.Steps {
+		foreignCase = foreignCase || st.Pkg != 0
+	}
+	failing := false
+	for _, st := range c.Steps {
+		failing = failing || st.Op == "method-err" || st.Op == "flavor-dup" || st.Op == "flavor-bad"
+	}
+	if foreignCase {
+		x.Cover("case:with-methods-defined-from-another-package")
+	} else {
+		x.Cover("avoided:method-defined-while-another-package-is-current")
+	}
+	if failing {
+		x.Cover("case:with-forms-that-have-to-fail")
+	}
+	if c.Decoy {
+		x.Cover("case:names-defined-and-removed-once-before")
+	}
+	if foreignCase && otherPkg == nil {
+		x.Fail("harness other-package-unavailable", "the package c11q could not be made")
+		return
+	}
+	if c.Decoy && !k.decoy() {
+		return
+	}
 	if !k.runSteps(c.Steps) {
+		if k.abandoned {
+			x.Trivial()
+		}
 		return
 	}
 	k.finalSweep()
+	if !k.quiet {
+		// the instances of the first definitions still answer (observed only)
+		for _, fi := range k.decoys {
+			trace = trace[:0]
+			err := sl.Catch(func() { fi.Receive(k.scope, ":m", slip.List{slip.Fixnum(7)}, 0) })
+			old := err == nil
+			for _, m := range trace {
+				old = old && strings.HasPrefix(m, "z")
+			}
+			if old {
+				x.Cover("decoy:instance-of-a-removed-flavor still runs its own daemons only")
+			} else {
+				x.Cover("decoy:instance-of-a-removed-flavor changed (not judged)")
+			}
+		}
+	}
 	if c.Rel {
 		// the relation monitor: the same forms in the reference order, under
 		// other names, must give the same observations (no model involved)
@@ -1066,7 +1472,11 @@ func exec(x *fw.Ctx, c Case) {
 				if !has {
 					rv = "<not observed>"
 				}
-				k.fail("relation fail=history-dependent obs="+lbl, "observation %s: this history gives [%s], the same forms in the reference order give [%s] || reference order: %s",
+				sig := "relation fail=history-dependent obs=" + lbl
+				if foreignCase {
+					sig = "pkg=other fail=late-method-lost relation"
+				}
+				k.fail(sig, "observation %s: this history gives [%s], the same forms in the reference order give [%s] || reference order: %s",
 					key, k.rec[key], rv, ref.history())
 			}
 			x.Cover("relation:cases")
@@ -1092,18 +1502,25 @@ func init() {
 		Rule: "case = (flavor DAG of 1..5 flavors with up to 3 components each; per flavor: variables with and without defaults, listed and bare " +
 			":gettable/:settable/:initable options (bare ones also on flavors with components), :default-init-plist/:init-keywords, in a minority " +
 			":included-flavors, :abstract-flavor with met :required-instance-variables/:required-flavors; an assignment of primary/:before/:after/whopper " +
-			"methods (whoppers that continue and whoppers that do not; in 1 case in 5 daemons that signal an error) on messages :m :n :init and accessor names; a history). " +
+			"methods (whoppers that continue once, twice or not at all; whoppers and :before daemons that send the same message to self once more before going on; " +
+			"in 1 case in 5 daemons that signal an error) on messages :m :n :init and accessor names; a history). " +
 			"One kept instance per case (every flavor in template cases) receives failed sends under ignore-errors (wrong argument count, an unknown message twice), " +
 			"each followed by the full sweep through both paths: self and the variable set must be the instance's own. " +
-			"First block: every admissible order of the 2..7 forms of template hierarchies (siblings, reversed siblings, chain, two users of one base, " +
+			"First block (independent of VERIF_SEED): every admissible order of the 2..7 forms of template hierarchies (siblings, reversed siblings, chain, two users of one base, " +
 			"diamond, triple, deep sibling, crossed pairs) for each daemon kind, mixed kinds, :init and accessor messages, plain variable and keyword defaults over " +
-			"3- and 4-level chains and diamonds, bare options, non-continuing whoppers, included flavors, abstract flavors with met and unmet requirements; " +
+			"3- and 4-level chains and diamonds, bare options, non-continuing, twice-continuing and relaying daemons, included flavors, abstract flavors with met and unmet requirements; " +
+			"the first 24 orders of 8 of them once more with forms that have to fail in between (defmethod with an unknown daemon type, a second defflavor of a defined flavor, " +
+			"a defflavor spoiled by an unknown component / unknown included flavor / unmet :required-methods / unknown option before the real one) and once more after a prelude that " +
+			"defines, instantiates and undefflavors other definitions of the same names; 5 templates with methods defined while another package is current; " +
+			"20 five-flavor hierarchies with a daemon of every kind on every flavor in 12 orders each; " +
 			"then 8000 (quick) / 110000 (thorough) seeded DAGs with seeded admissible orders (uniform / methods early / flavors first), redefinitions, " +
-			"instances made and messages sent in mid-history. Every flavor of a case is observed at the end through send and through BoundReceive and judged by the " +
-			"reference model; for every template case and every second seeded case the same forms are also evaluated in the reference order (each flavor directly " +
-			"followed by its methods) under other names and all final observations of the two histories are compared without the model. " +
+			"instances made and messages sent in mid-history, and in minorities failing forms (1 in 6), the undefflavor prelude (1 in 8), methods defined from another package (1 in 12: a listed finding). " +
+			"Every flavor of a case is observed at the end through send, through BoundReceive, and on the same instance through :send-if-handles, (setf (send ..)), " +
+			":operation-handled-p and :which-operations, and judged by the reference model; for every template case and every second seeded case the same flavor and method forms are also " +
+			"evaluated in the reference order (each flavor directly followed by its methods, no failing forms, no prelude) under other names and all final observations of the two histories are compared without the model. " +
 			"distinct = distinct case JSON; non-trivial = at least one observed send combined daemons of 2 or more flavors. " +
-			"not generated: :included-flavors on a flavor with components or on an abstract flavor and a flavor included twice (position not specified), :required-methods",
+			"avoided: methods defined while another package is current (listed finding pkg=other) stay in 1 seeded case in 12 and one template family. " +
+			"not generated: :included-flavors on a flavor with components or on an abstract flavor and a flavor included twice (position not specified), :required-methods that are met, flavors defined in another package",
 		N:        nCases,
 		Gen:      gen,
 		Exec:     exec,
@@ -1116,6 +1533,8 @@ func init() {
 			"instance variables are read through Instance.SlotValue, not through the method tables under test",
 			"the bare :gettable/:settable/:initable options cover every variable of the flavor, inherited ones included (FuncDoc of defflavor: 'for each variable')",
 			"an included flavor that is not a component otherwise follows the flavor that includes it",
+			"continue-whopper may be called more than once by a whopper; each call runs everything the whopper wraps",
+			"a form that signals an error (defmethod with an unknown daemon type, defflavor of a defined name or with an unknown component/option/unmet requirement) defines nothing; if slip accepts such a form the case is abandoned, not failed",
 		},
 	})
 }
